@@ -52,6 +52,113 @@ func runSequential(start time.Time, level slog.Level, input []byte) []handler.Me
 	return msgs
 }
 
+// sleepTicking sleeps for d while reporting progress, so that a deliberate stall of
+// the monitor's own producer or consumer is never mistaken for a deadlock.
+func sleepTicking(d time.Duration) {
+	for d > 0 {
+		step := 50 * time.Millisecond
+		if d < step {
+			step = d
+		}
+		time.Sleep(step)
+		tick()
+		d -= step
+	}
+}
+
+// runTimed is the stream handler between a producer that falls silent for a while at
+// the given input offsets and a consumer that stays away for consStall before every
+// receive (an unbuffered output, so the handler has to wait for it).  No timing of
+// either side may change what is delivered.
+func runTimed(input []byte, pauseAt map[int]time.Duration, consStall time.Duration) []handler.Message {
+	in := make(chan byte)
+	out := make(chan handler.Message)
+	h := handler.New(fixedStart, slog.LevelInfo)
+	go h.HandleMessages(in, out)
+	go func() {
+		for i, b := range input {
+			if d, ok := pauseAt[i]; ok {
+				sleepTicking(d)
+			}
+			in <- b
+			tick()
+		}
+		if d, ok := pauseAt[len(input)]; ok {
+			sleepTicking(d)
+		}
+		close(in)
+	}()
+	var msgs []handler.Message
+	done := make(chan struct{})
+	go func() {
+		for {
+			sleepTicking(consStall)
+			m, ok := <-out
+			if !ok {
+				break
+			}
+			msgs = append(msgs, m)
+			tick()
+		}
+		close(done)
+	}()
+	waitOrHang(done, caseWatchdog+time.Duration(len(pauseAt)+40)*(consStall+time.Second), "stream handler with a stalling producer/consumer did not finish")
+	return msgs
+}
+
+// timedStalls are the lengths of the stalls: a handler that gives up on a consumer
+// or flushes on a silent input will have picked some round figure.
+func timedStalls(c *child.Ctx) []time.Duration {
+	if c.Thorough() {
+		return []time.Duration{120 * time.Millisecond, 300 * time.Millisecond, 600 * time.Millisecond, 1200 * time.Millisecond, 2500 * time.Millisecond, 5500 * time.Millisecond, 10500 * time.Millisecond}
+	}
+	return []time.Duration{300 * time.Millisecond, 1200 * time.Millisecond}
+}
+
+// execTimed runs a by-construction stream with a stalling consumer and with a
+// producer pausing in the middle of and between its segments.
+func execTimed(c *child.Ctx, s gen.Stream, exp []gen.Expected, stall time.Duration, sig string) {
+	input := s.Bytes()
+	for mode := 0; mode < 2; mode++ {
+		k := streamCase{Input: hexs(input), Expect: toExp(exp), StallMs: stall.Milliseconds()}
+		if mode == 0 {
+			k.ConsumerStalls = true
+			k.Note = fmt.Sprintf("consumer stays away %v before every receive", stall)
+		} else {
+			off := 0
+			for _, g := range s {
+				k.PauseAt = append(k.PauseAt, off)
+				if len(g.Bytes) > 1 {
+					k.PauseAt = append(k.PauseAt, off+len(g.Bytes)/2)
+				}
+				off += len(g.Bytes)
+			}
+			k.PauseAt = append(k.PauseAt, len(input))
+			k.Note = fmt.Sprintf("producer silent for %v at the start, in the middle and at the end of every segment", stall)
+		}
+		cj := c.BeginV(k)
+		execTimedCase(c, k, cj, sig)
+		c.Eval(ref.Hash64(input, []byte(k.Note)), true)
+	}
+}
+
+func execTimedCase(c *child.Ctx, k streamCase, cj []byte, sig string) {
+	stall := time.Duration(k.StallMs) * time.Millisecond
+	pauses := map[int]time.Duration{}
+	for _, o := range k.PauseAt {
+		pauses[o] = stall
+	}
+	cons := time.Duration(0)
+	if k.ConsumerStalls {
+		cons = stall
+	}
+	msgs := runTimed(unhex(k.Input), pauses, cons)
+	if why := compareSeq(msgs, k.Expect); why != "" {
+		c.Violate(sig, k.Note+": "+why, cj)
+	}
+	c.Count("stalled_runs", 1)
+}
+
 type streamCase struct {
 	Input string `json:"input"` // hex
 	Note  string `json:"note,omitempty"`
@@ -63,6 +170,10 @@ type streamCase struct {
 	Cons     int    `json:"consumer_profile,omitempty"`
 	Hook     string `json:"hook_profile,omitempty"`
 	HookSeed uint64 `json:"hook_seed,omitempty"`
+	// stalls (runTimed)
+	StallMs        int64 `json:"stall_ms,omitempty"`
+	PauseAt        []int `json:"producer_pauses_at,omitempty"`
+	ConsumerStalls bool  `json:"consumer_stalls,omitempty"`
 	// direct call (C01)
 	Direct bool `json:"direct,omitempty"`
 	// expectation (C03/C12)
@@ -408,6 +519,10 @@ func monC03(c *child.Ctx, replay json.RawMessage) {
 		var k streamCase
 		json.Unmarshal(replay, &k)
 		c.Begin(replay)
+		if k.StallMs > 0 {
+			execTimedCase(c, k, replay, "sequence-mismatch")
+			return
+		}
 		execExpect(c, k, replay, "sequence-mismatch")
 		return
 	}
@@ -451,6 +566,15 @@ func monC03(c *child.Ctx, replay json.RawMessage) {
 		}
 	}
 	c.Count("payload_lengths_swept", int64(lens))
+	// the same kind of stream with the consumer, then the producer, stalling
+	stalls := timedStalls(c)
+	if c.Batch < 2*len(stalls) {
+		st := gen.Stream{gen.RandFrame(r), gen.Seg{Kind: "junk", Type: -1, Bytes: []byte("$GPGGA,123519,4807.038,N,01131.000,E*47\r\n")}, gen.RandFrame(r), gen.RandFrame(r), gen.Junk(r)}
+		if c.Batch%2 == 1 {
+			st = append(st, gen.Seg{Kind: "trunc", Type: -1, Bytes: gen.RandFrame(r).Bytes[:5]})
+		}
+		execTimed(c, st, st.ExpectedClean(), stalls[c.Batch/2], "sequence-mismatch")
+	}
 	// long sessions: hundreds of junk-then-frame transitions in one stream
 	nLong := c.Pick(2, 6)
 	if c.Batch < 4 || c.Thorough() {
@@ -551,6 +675,10 @@ func monC12(c *child.Ctx, replay json.RawMessage) {
 		var k streamCase
 		json.Unmarshal(replay, &k)
 		c.Begin(replay)
+		if k.StallMs > 0 {
+			execTimedCase(c, k, replay, "corruption-not-contained")
+			return
+		}
 		execC12(c, k, replay, nil)
 		return
 	}
@@ -728,7 +856,77 @@ func monC12(c *child.Ctx, replay json.RawMessage) {
 			}
 		}
 	}
+	// a week (GLONASS: day) rollover between the neighbours of the victim: the victim is
+	// a frame that can have no legitimate influence on the times reported for the others
+	// - not an MSM, or the only frame of its constellation in the stream
+	nRoll := c.Share(c.Pick(48, 1200))
+	for i := 0; i < nRoll; i++ {
+		cons := ref.TimedConstellations[i%len(ref.TimedConstellations)]
+		tp := ref.TypesOf(cons)[r.Intn(2)]
+		before := uint(604800000 - r.Range(1, 30000))
+		after := uint(r.Range(0, 30000))
+		later := after + uint(r.Range(1, 5000))
+		if cons == "Glonass" {
+			day := uint(r.Intn(7))
+			before = day<<27 | uint(86400000-r.Range(1, 30000))
+			after = ((day+1)%7)<<27 | after
+			later = ((day+1)%7)<<27 | later
+		}
+		var victim gen.Seg
+		if r.Chance(1, 2) {
+			for {
+				victim = gen.RandFrame(r)
+				if !ref.IsMSM4(victim.Type) && !ref.IsMSM7(victim.Type) && len(victim.Bytes) <= 40 {
+					break
+				}
+			}
+		} else {
+			other := ref.TimedConstellations[(i+1+r.Intn(3))%len(ref.TimedConstellations)]
+			otp := ref.TypesOf(other)[r.Intn(2)]
+			ots := uint(r.Range(1000, 80000000))
+			if other == "Glonass" {
+				ots |= uint(r.Intn(7)) << 27
+			}
+			victim = gen.Seg{Kind: "frame", Type: otp, Bytes: timeFrame(r, otp, ots)}
+		}
+		s := gen.Stream{gen.Seg{Kind: "frame", Type: tp, Bytes: timeFrame(r, tp, before)}}
+		if r.Chance(1, 3) {
+			s = append(s, gen.Junk(r))
+		}
+		s = append(s, victim)
+		v := len(s) - 1
+		s = append(s, gen.Seg{Kind: "frame", Type: tp, Bytes: timeFrame(r, tp, after)}, gen.Seg{Kind: "frame", Type: tp, Bytes: timeFrame(r, tp, later)})
+		f := victim.Bytes
+		for bit := 24; bit < len(f)*8; bit++ {
+			if bit >= 24+100 && bit%5 != 0 {
+				continue
+			}
+			gg := append([]byte(nil), f...)
+			gg[bit/8] ^= 1 << uint(7-bit%8)
+			runFault(s, v, gg, fmt.Sprintf("%s rollover between the victim's neighbours, flip bit %d", cons, bit))
+			c.Count("rollover_neighbour_faults", 1)
+		}
+	}
 	relational = false
+	// a slow consumer / an input that falls silent: the damaged frame is still delivered
+	// whole and alone
+	stalls := timedStalls(c)
+	if c.Batch < len(stalls) {
+		var f1, vf, f2 gen.Seg
+		for {
+			f1, vf, f2 = gen.RandFrame(r), gen.RandFrame(r), gen.RandFrame(r)
+			if len(vf.Bytes) >= 12 && len(vf.Bytes) <= 200 {
+				break
+			}
+		}
+		g := append([]byte(nil), vf.Bytes...)
+		g[r.Range(5, len(g)-1)] ^= 0x10
+		if !ref.IsFrame(g) {
+			st := gen.Stream{f1, gen.Seg{Kind: "corrupt", Type: -1, Bytes: g}, f2, gen.Junk(r)}
+			exp := []gen.Expected{{Type: f1.Type, Bytes: f1.Bytes}, {Type: -1, Bytes: g}, {Type: f2.Type, Bytes: f2.Bytes}, {Type: -1, Bytes: st[3].Bytes}}
+			execTimed(c, st, exp, stalls[c.Batch], "corruption-not-contained")
+		}
+	}
 	// periodic messages: the same frame repeated (a base station sends its 1005 again
 	// and again); the victim is a repeat, corrupted in its payload with the CRC bytes intact
 	nRep := c.Share(c.Pick(40, 1200))
@@ -901,11 +1099,37 @@ func execC02(c *child.Ctx, k streamCase, cj []byte, traces map[uint64]struct{}, 
 	}
 }
 
+func execC02Timed(c *child.Ctx, k streamCase, cj []byte) {
+	stall := time.Duration(k.StallMs) * time.Millisecond
+	pauses := map[int]time.Duration{}
+	for _, o := range k.PauseAt {
+		pauses[o] = stall
+	}
+	cons := time.Duration(0)
+	if k.ConsumerStalls {
+		cons = stall
+	}
+	input := unhex(k.Input)
+	msgs := runTimed(input, pauses, cons)
+	var cat []byte
+	for _, m := range msgs {
+		cat = append(cat, m.RawData...)
+	}
+	if !bytes.Equal(cat, input) {
+		c.Violate("not-lossless", fmt.Sprintf("with stalls of %v (consumer: %v, producer pauses at %v) the concatenated raw bytes (%d) differ from the input (%d): %s; delivered:%s", stall, k.ConsumerStalls, k.PauseAt, len(cat), len(input), firstDiff(cat, input), describeMsgs(msgs, 10)), cj)
+	}
+	c.Count("stalled_runs", 1)
+}
+
 func monC02(c *child.Ctx, replay json.RawMessage) {
 	if replay != nil {
 		var k streamCase
 		json.Unmarshal(replay, &k)
 		c.Begin(replay)
+		if k.StallMs > 0 {
+			execC02Timed(c, k, replay)
+			return
+		}
 		reps := 1
 		if k.Procs > 0 || k.Hook != "" {
 			reps = 200 // schedule dependent: repeat
@@ -1005,6 +1229,33 @@ func monC02(c *child.Ctx, replay json.RawMessage) {
 			if i == len(inputs)-1 && j == 1 {
 				c.Sample(map[string]interface{}{"input_len": len(in), "in_cap": k.InCap, "out_cap": k.OutCap, "gomaxprocs": k.Procs, "producer": k.Prod, "consumer": k.Cons, "hook_profile": k.Hook})
 			}
+		}
+	}
+	// a consumer that stays away before every receive, and an input that falls silent
+	// inside and between its segments: still lossless
+	stalls := timedStalls(c)
+	if sb := c.NBatch - 1 - c.Batch; sb < len(stalls) {
+		stalls = []time.Duration{stalls[sb], stalls[sb]}
+		var st gen.Stream
+		for {
+			st = gen.HostileStream(r, false)
+			if n := len(st.Bytes()); len(st) >= 3 && len(st) <= 6 && n <= 400 {
+				break
+			}
+		}
+		for mode := 0; mode < 2; mode++ {
+			k := streamCase{Input: hexs(st.Bytes()), StallMs: stalls[0].Milliseconds(), ConsumerStalls: mode == 0}
+			if mode == 1 {
+				off := 0
+				for _, g := range st {
+					k.PauseAt = append(k.PauseAt, off, off+len(g.Bytes)/2)
+					off += len(g.Bytes)
+				}
+				k.PauseAt = append(k.PauseAt, off)
+			}
+			cj := c.BeginV(k)
+			execC02Timed(c, k, cj)
+			c.Eval(ref.Hash64(st.Bytes(), []byte{byte(mode)}, []byte(fmt.Sprint(k.StallMs))), true)
 		}
 	}
 	c.Count("distinct_interleavings_observed", int64(len(traces)))
